@@ -52,6 +52,9 @@ CHECKS = {
     "C12": dict(engine="TermMachine", ref="5/C12",
                 text="A Gaussian funsor is an L1 leaf whose denotation is the explicit quadratic -1/2 ||x S - w||^2 over exact rationals (spec/Sem.tla EvalGauss). TLC enumerates Gaussian leaves (full rank, rank deficient, over-complete hence rank-compressed, batched, interleaved orders and shapes of real inputs) under sums of Gaussians, substitution of real values / variables / affine expressions / batched tensors for some or all real inputs, indexing, slicing-free renaming and tensor-indexing of batch inputs, align and Cat along a batch input; every result is evaluated at every sample point of its remaining real inputs and every batch assignment and compared with the table TLC computed; inputs must be among the predicted ones.",
                 note="trusted as C01; sample points {-1, 0, 1/2, 2} (rotations for vector inputs), tolerance 1e-6; one constructor step quick (two, first 60k programs, thorough); keyword parametrisations (mean/info_vec x precision/covariance/scale_tril) are exercised through C13's engine when present; substituting a python float raises AttributeError on the pinned tree (a decline), values are also passed as 0-d Tensors"),
+    "C13": dict(engine="GaussOps", ref="5/C13",
+                text="spec/GaussOps.tla computes, over exact rationals, the dense form (P, eta, c) of every Gaussian leaf of a catalogue (batched, interleaved input orders, vector inputs, over-complete and rank-deficient square roots) and the closed forms: marginal over every subset of real inputs with block dimension <= 3 (Schur complement by adjugate; constants kept symbolically as q + k/2 log 2pi - 1/2 log p), log-normaliser, mean, covariance, E[x] and E[quadratic]; TLC checks in the model that two-stage marginalisation equals one-stage for every split. The harness runs g.reduce(logaddexp, subset) in one and two stages at every sample point and batch index, log_normalizer, Integrate against a variable and against a Gaussian, mixture reduction over integer inputs, and the same Gaussian rebuilt from 5 keyword parametrisations, and compares every value; full-rank cases must complete, a singular block must raise or be non-finite.",
+                note="trusted: TLC + GaussOps.tla linear algebra, harness float conversion, tolerance 1e-6 (conditioning not under test); mixtures: the harness takes log-sum-exp of TLC's per-component values; moment matching and plate sums are not yet covered by this engine (plate sums of Gaussians are exercised by the thorough C12 lens)"),
 }
 
 NOT_YET = "check not built yet in this round (planned, see DESIGN.md section 5)"
@@ -100,6 +103,8 @@ def main():
              "kind_free_text": "TLA+ structural semiring derivative over L1 terms (extends TermMachine); replayed by harness/modes.py:c11"},
             {"name": "Dispatch", "path": "spec/Dispatch.tla", "serves_properties": ["C16"],
              "kind_free_text": "TLA+ subtype model, DispatchCache machine and trace judge over recorded truth tables / dispatch events; harness/dispatchdriver.py"},
+            {"name": "GaussOps", "path": "spec/GaussOps.tla", "serves_properties": ["C13"],
+             "kind_free_text": "TLA+ rational linear algebra: dense forms, Schur complements, normalisers, moments of Gaussian leaves (catalogue in GaussCat.tla); replayed by harness/modes.py:c13"},
             {"name": "Judge", "path": "spec/Judge.tla", "serves_properties": ["C02", "C08"],
              "kind_free_text": "TLA+ trace specification that consumes recorded events (rule firings, emitted terms) and decides them with the L1 denotation"},
         ],
